@@ -781,9 +781,17 @@ class ExprMixin:
                 # pending / tmps record that a removal was *attempted*; whether the removal
                 # itself fails is a fault-path matter (C13), not a bookkeeping one (C05)
                 st = st.set(pending=st.pending - paths[0], tmps=st.tmps - paths[0])
-            if raises:
-                self.raise_star(st, out)
-            st = self.emit(kind, d, paths, n, st, frame)
+            if raises and kind in ("CREATE", "WRITE", "RENAME", "REMOVE", "MKDIR"):
+                # a mutation that fails may have happened in part (a cross-device move copies first; a creation may have
+                # made the name): on the exceptional edge the file system is in a NEW epoch - what was probed before the
+                # attempt is no longer known
+                st_after = self.emit(kind, d, paths, n, st, frame)
+                self.raise_star(st.set(muts=st_after.muts), out)
+                st = st_after
+            else:
+                if raises:
+                    self.raise_star(st, out)
+                st = self.emit(kind, d, paths, n, st, frame)
             if kind == "PROBE":
                 if d in ("os.path.isfile", "os.path.exists", "os.path.isdir"):
                     return V(("probe", d.rsplit(".", 1)[1], paths[0], st.muts)), st
@@ -879,6 +887,9 @@ class ExprMixin:
         if name in self.p.classes:
             args, kw, st = self.eval_args(n, st, frame, out)
             return self.construct(name, args, kw, n, st, frame, out)
+        if name in st.env and st.env[name] and all(tag(t) == "class" for t in st.env[name]):
+            args, kw, st = self.eval_args(n, st, frame, out)
+            return self.call_value(st.env[name], args, kw, n, st, frame, out)
         if name in self.p.funcs and "." not in name:
             args, kw, st = self.eval_args(n, st, frame, out)
             return self.inline(self.p.funcs[name], args, kw, st, frame, n, out)
@@ -1019,6 +1030,9 @@ class ExprMixin:
             cls = r[1]
             f = self.p.method(cls, meth)
             if f is not None:
+                if f.is_class:
+                    # classmethod: the class itself is the first argument
+                    return self.inline(f, [V(("class", cls))] + list(args), kw, st, frame, n, out)
                 if tg == "class" or f.is_static:
                     return self.inline(f, args, kw, st, frame, n, out, selfterm=r if tg != "class" else None)
                 return self.inline(f, [V(r)] + list(args), kw, st, frame, n, out, selfterm=r)
